@@ -102,6 +102,9 @@ def generate(prop, seed, tier):
         buffer_size=rng.choice([8192, 8192, 512, 64]),
         mode=rng.choice(["w", "wb"]),
         errno=rng.choice([errno.EIO, errno.ENOSPC, errno.EACCES]),
+        # what the failing file operation raises: an OSError, or - Ctrl-C / sys.exit arriving during the operation -
+        # a BaseException that is not an Exception
+        fault_exc=rng.choice([None, None, None, "KeyboardInterrupt", "SystemExit"]),
         name=rng.choice(["t", "t", "result.pkl", "result.json", "data.v2.bin", ".hidden", "a b.txt"]),
         sibling=rng.random() < 0.3,
     )
@@ -198,7 +201,7 @@ def execute(prop, desc):
                 break
             n_sub += 1
             path = _prepare(d, desc)
-            fault = dict(k=k, kind=kind, errno=desc["errno"])
+            fault = dict(k=k, kind=kind, errno=desc["errno"], exc=desc.get("fault_exc"))
             tag = ops[k - 1][0] + ":" + kind
             fired[tag] = fired.get(tag, 0) + 1
             if kind.startswith("die"):
@@ -225,7 +228,7 @@ def execute(prop, desc):
                 try:
                     try:
                         do_write(desc, path, value, kwargs)
-                    except Exception as e:
+                    except (Exception, KeyboardInterrupt, SystemExit) as e:
                         raised = e
                 finally:
                     fs.uninstall()
